@@ -207,7 +207,7 @@ pub fn replay_one(b: &Value) -> Option<String> {
                     if let Some(m) = compare(&f, exp, n, Some(&b["pattern"]), true) {
                         return Some(m);
                     }
-                    if !exp["tie"].as_bool().unwrap() {
+                    if !exp["tie"].as_bool().unwrap() && exp["err"] == "none" {
                         let x = exp["x"].as_array().unwrap();
                         let mut rhs: Vec<f64> = (0..n).map(|i| (i + 1) as f64).collect();
                         f.solve(&mut rhs);
